@@ -98,6 +98,18 @@ Theorem C18_oracle_sound_overlap : forall r l b_resp sets a_scan a_nonempty,
 Proof. exact c18_overlap_sound. Qed.
 Print Assumptions C18_oracle_sound_overlap.
 
+(* etcd Range with an explicit Revision (pinned, current, future, or the partition magic; get, list, count-only):
+   the follower syncs exactly as for Revision = 0 — the field is overloaded, count-only and the partition list
+   answer at the node's read revision whatever it says *)
+Theorem C18_explicit_revision_reads_sync : forall m v proxy l,
+  roles_effects (ERangeAt m v) Follower proxy l = roles_effects ERangeList Follower proxy l.
+Proof. exact explicit_revision_reads_sync. Qed.
+Print Assumptions C18_explicit_revision_reads_sync.
+Theorem C18_oracle_sound_follow : forall m v r1 r2 sets hdr2,
+  c18_check (FollowCase m v r1 r2 sets hdr2) = true -> c18_oracle (FollowCase m v r1 r2 sets hdr2) = None.
+Proof. exact c18_follow_sound. Qed.
+Print Assumptions C18_oracle_sound_follow.
+
 (* non-vacuity *)
 Example C18_set_race_witness :
   let s := run_code (i_init 10 5) w_set_race in
